@@ -10,6 +10,7 @@ use nom::combinator::{cut, map, map_res, opt};
 use nom::error::context;
 use nom::multi::separated_list0;
 use nom::sequence::{delimited, pair, preceded, terminated};
+use nom_language::error::VerboseErrorKind;
 
 pub fn formal_args(input: Span) -> PResult<FormalArgs> {
     let (input, _) = terminated(char('('), opt_spacelike).parse(input)?;
@@ -84,4 +85,20 @@ pub fn call_args(input: Span) -> PResult<CallArgs> {
         cut(char(')')),
     )
     .parse(input)
+    .map_err(|e| match e {
+        // An argument list that parses but is invalid (a duplicate
+        // name, a positional argument after a named one) is an
+        // error, not something else that happens to be in parentheses.
+        nom::Err::Error(e)
+            if e.errors.first().is_some_and(|(_, kind)| {
+                matches!(
+                    kind,
+                    VerboseErrorKind::Nom(nom::error::ErrorKind::MapRes)
+                )
+            }) =>
+        {
+            nom::Err::Failure(e)
+        }
+        e => e,
+    })
 }
